@@ -168,6 +168,8 @@ class FakeSocket:
 class FakeSelector:
     def __init__(self, sock):
         self.w = sock.w
+        if self.w.sc.conn == 'selfail':      # the selector cannot be created (e.g. EMFILE from epoll_create / kqueue)
+            raise OSError(24, 'simulated: too many open files' + HOSTILE)
         self.w.sel_open = True
 
     def wait(self, max_bytes, timeout=0.0):
@@ -560,6 +562,7 @@ def run_chain(scs, worlds=None):
         return test_key(k)
 
     out = []
+    held = []
     try:
         _session.time = TimeShim
         _events.time = TimeShim
@@ -575,13 +578,16 @@ def run_chain(scs, worlds=None):
             cur['sc'], cur['world'] = sc, world
             if worlds is not None:
                 worlds.append(world)
-            out.append(_run_one(ws, sc, world))
+            out.append(_run_one(ws, sc, world, held))
     finally:
+        if held:
+            del held[:]
+            gc.collect()
         _session.time, _events.time, _frame.make_masking_key, _websocket.os.urandom = saved
     return out
 
 
-def _run_one(ws, sc, world):
+def _run_one(ws, sc, world, held=None):
     gen = None
     try:
         sess_cls = make_session_class(world)
@@ -605,9 +611,11 @@ def _run_one(ws, sc, world):
                 world.deflate_cfg = ws.state.compression
             acts = sc.reactions.get(idx, [])
             idx += 1
+            if idx == 2:
+                release('late2')
             for a in acts:
                 if a[0] == 'abandon':
-                    if a[1] in ('close', 'drop'):
+                    if a[1] in ('close', 'drop', 'late', 'late2'):
                         return True
                     raise Abandon(a[1])
                 do_act(world, ws, a)
@@ -618,7 +626,14 @@ def _run_one(ws, sc, world):
                 if handle(ev):
                     break
 
+        def release(tag):
+            # an EARLIER connection's generator, abandoned but still referenced by the application, is finalised only now
+            if held is not None and any(m == tag for m, _ in held):
+                held[:] = [(m, g) for m, g in held if m != tag]
+                gc.collect()
+
         gen = ws.connect(**kwargs)
+        release('late')
         try:
             if mech == 'with':
                 with ws:
@@ -631,6 +646,8 @@ def _run_one(ws, sc, world):
             world.log('ESCAPED:' + type(e).__name__)
         if mech == 'close':
             gen.close()
+        if mech in ('late', 'late2') and held is not None:
+            held.append((mech, gen))      # the application keeps the abandoned generator (e.g. `gen = ws.connect()` rebinding: released after the next connect())
         gen = None
         if mech is not None:
             gc.collect()      # finalise a dropped generator even if it sits in a reference cycle
